@@ -1,7 +1,7 @@
 (* C01 — Two endpoints built on the library interoperate, even across transport loss.
    Statements only.  Nothing else may be added to this file. *)
 From MQ Require Import Base.Prelude Alloc.Alloc Framing.Framing Framing.FramingProofs Conn.Types Conn.ConnRecord Conn.Step
-                       Corr.ConnTrace Conn.Scope Conn.Session Conn.IdsQuota Conn.Own Conn.OwnStep Conn.Run Conn.PairQos Conn.PairQos5 Conn.PairSeq Conn.PairSeq5 Conn.PairConc Conn.SessInv Conn.PairLoss Conn.PairLossAcc.
+                       Corr.ConnTrace Conn.Scope Conn.Session Conn.IdsQuota Conn.Own Conn.OwnStep Conn.Run Conn.PairQos Conn.PairQos5 Conn.PairSeq Conn.PairSeq5 Conn.PairConc Conn.PairBi Conn.SessInv Conn.PairLoss Conn.PairLossAcc.
 
 (* what the pair property rests on, each proved for ALL states of one endpoint:
    (i) delivery in any fragmentation is the same byte stream (C09) *)
@@ -173,6 +173,25 @@ Theorem C01_pair_invariant_after_handshake : forall gs gr c1 c2,
 Proof. exact inv_init. Qed.
 Print Assumptions C01_pair_invariant_after_handshake.
 
+(* TRAFFIC IN BOTH DIRECTIONS AT ONCE (intact links): A and B both publish; each link carries one side's PUBLISH / PUBREL
+   together with its acknowledgements of the other side's messages.  The invariant [inv2] is [inv] twice (A as sender with
+   B as receiver, B as sender with A as receiver); every action of the two-way system is an action of one of the two
+   one-way systems and leaves the other one's invariant intact, because a receiver's step does not touch what its sender
+   role looks at (F8) and a sender's step does not touch the handled set.  For EVERY schedule nothing fails, and once the
+   links have drained each application has been notified of exactly what the other side published, once each, in order *)
+Theorem C01_pair_two_way_exactly_once : forall gA gB l s,
+  inv2 gA gB s -> Forall good_act2 l ->
+  exists s1 s2, run_sched2 gA gB s l = Some s1 /\ run_sched2 gA gB s1 (drain2 (measure2 s1)) = Some s2 /\
+                qab s2 = [] /\ qba s2 = [] /\ delB s2 = pubA s1 /\ delA s2 = pubB s1.
+Proof. exact two_way_exactly_once. Qed.
+Print Assumptions C01_pair_two_way_exactly_once.
+
+Theorem C01_pair_two_way_invariant_after_handshake : forall gA gB a b,
+  OWN gA a -> ready a -> c_auto_pub a = true -> c_qos2 a = [] -> OWN gB b -> ready b -> c_auto_pub b = true -> c_qos2 b = [] ->
+  inv2 gA gB (mkBi a b [] [] [] [] [] []).
+Proof. exact inv2_init. Qed.
+Print Assumptions C01_pair_two_way_invariant_after_handshake.
+
 (* ACROSS TRANSPORT LOSS (v3.1.1, automatic responses, persistent sessions, a client as sender and a server as receiver):
    one more action, [Lose] — both sides are told the transport is closed, everything in flight is gone, the client
    reconnects without Clean Session, the server accepts with Session Present, the client retransmits what it has stored;
@@ -256,8 +275,9 @@ Print Assumptions C01_recv_call_is_deliver.
 (* C01_partial: what is PROVED of the pair is everything above: single exchanges (both versions), any sequence of them
    (both versions), ANY schedule with several exchanges in flight on intact FIFO links with the exactly-once accounting
    (v3.1.1, automatic responses), and the same WITH TRANSPORT LOSSES and session resumption: safety, progress, QoS 2 exactly
-   once and QoS 1 at least once.  NOT proved: a loss in the middle of the resumption handshake or of a frame, manual
-   responses, several v5.0 exchanges in flight and topic aliases, traffic in both directions at once.  Those — with arbitrary
+   once and QoS 1 at least once; and traffic in both directions at once on intact links.  NOT proved: a loss in the middle
+   of the resumption handshake or of a frame, losses with traffic in both directions, manual responses, several v5.0
+   exchanges in flight and topic aliases.  Those — with arbitrary
    fragmentation, loss points (incl. mid-frame) and workloads from both sides — are decided on PAIRS OF REAL OBJECTS by the
    monitor mon_c01 (harness conn_duo.rs wires a client and a server object by two byte queues): no protocol error on
    either side, termination, exactly-once / at-least-once / at-most-once delivery with the original topic and payload,
@@ -433,3 +453,31 @@ Example C01_pair_lossy_nonvacuous :
   | _, _ => False
   end.
 Proof. vm_compute. repeat split; try reflexivity; try discriminate; intros; try discriminate; auto. Qed.
+
+
+(* the two-way theorem is not vacuous: both sides publish while the other side's messages and acknowledgements are in
+   flight on the same links; after draining each side has received exactly what the other published *)
+Example C01_pair_two_way_nonvacuous :
+  let gA := mkCfg RClient 65535 2 in
+  let gB := mkCfg RServer 65535 2 in
+  let cn := mkPkt 1 V311 0 0 false false [] None 0 0 14 false 0 true 0 None None None None None in
+  let ca := mkPkt 2 V311 0 0 false false [] None 0 0 4 true 0 false 0 None None None None None in
+  let ops_a := [OSetAutoPub true; OSend cn; ORecv [32;2;0;0] (PROk ca)] in
+  let ops_b := [OSetAutoPub true; ORecv [16;12;0;4;77;81;84;84;4;2;0;0;0;0] (PROk cn); OSend ca] in
+  let pb := fun id q pay => mkPkt 3 V311 id q false false [116] None pay 0 (7 + pay) false 0 false 0 None None None None None in
+  let sched := [PubA (pb 1 2 0); PubB (pb 1 1 7); ToB; PubB (pb 2 2 8); PubA (pb 2 1 1); ToA; ToA; ToB; PubA (pb 3 2 2); ToA] in
+  match run_state gA (conn_new gA V311) ops_a, run_state gB (conn_new gB V311) ops_b with
+  | Some a, Some b =>
+      match run_sched2 gA gB (mkBi a b [] [] [] [] [] []) sched with
+      | Some s1 =>
+          match run_sched2 gA gB s1 (drain2 (measure2 s1)) with
+          | Some s2 => pubA s1 = [pb 1 2 0; pb 2 1 1; pb 3 2 2] /\ pubB s1 = [pb 1 1 7; pb 2 2 8] /\
+                       delB s2 = pubA s1 /\ delA s2 = pubB s1 /\ qab s2 = [] /\ qba s2 = [] /\
+                       (length (qab s1) + length (qba s1) >= 3)%nat
+          | None => False
+          end
+      | None => False
+      end
+  | _, _ => False
+  end.
+Proof. vm_compute. repeat split; try reflexivity; lia. Qed.
